@@ -49,6 +49,8 @@ func runFlushMode() {
 		o.stat()
 		flushCase(r, name, root, o, cfg)
 	}
+	// C06: whether flushed records can be read must not depend on where the Flush calls fall
+	longStreamCases("C06", rng.FromEnv(112))
 }
 
 func flushCase(r *rng.R, name string, root *rootSpec, o wopts, cfg *recgen.Cfg) {
